@@ -407,7 +407,28 @@ def harness_env():
     return vlib.ENV
 
 
-def run_filterset(binary, cases, shards=8, timeout=1200):
+class HarnessHang(Exception):
+    """the implementation did not come back on one input (the case is attached)"""
+    def __init__(self, case, seconds):
+        super().__init__(f"the implementation did not terminate within {seconds} s on {json.dumps(case)[:300]}")
+        self.case, self.seconds = case, seconds
+
+
+def _find_hanging_case(binary, chunk, per_case=10):
+    """after a batch timed out: the first case of the chunk on which the harness alone does not come back"""
+    for c in chunk:
+        p = subprocess.Popen([binary, "filterset"], stdin=subprocess.PIPE, stdout=subprocess.PIPE,
+                             stderr=subprocess.PIPE, env=vlib.ENV)
+        try:
+            p.communicate((json.dumps(c) + "\n").encode(), timeout=per_case)
+        except subprocess.TimeoutExpired:
+            p.kill()
+            p.communicate()
+            return c
+    return None
+
+
+def run_filterset(binary, cases, shards=8, timeout=240):
     """like vlib.run_impl, but splits the harness output on '\\n' only: serde_json writes U+2028,
     U+0085 ... unescaped and str.splitlines() would cut the JSON lines there"""
     if not cases:
@@ -421,10 +442,18 @@ def run_filterset(binary, cases, shards=8, timeout=1200):
             continue
         p = subprocess.Popen([binary, "filterset"], stdin=subprocess.PIPE, stdout=subprocess.PIPE,
                              stderr=subprocess.PIPE, env=vlib.ENV)
-        procs.append((p, ("\n".join(json.dumps(c) for c in chunk) + "\n").encode(), len(chunk)))
+        procs.append((p, ("\n".join(json.dumps(c) for c in chunk) + "\n").encode(), len(chunk), chunk))
     out = []
-    for p, data, k in procs:
-        o, e = p.communicate(data, timeout=timeout)
+    for p, data, k, chunk in procs:
+        try:
+            o, e = p.communicate(data, timeout=timeout)
+        except subprocess.TimeoutExpired:
+            for q, _, _, _ in procs:
+                q.kill()
+            hang = _find_hanging_case(binary, chunk)
+            if hang is not None:
+                raise HarnessHang(hang, 10)
+            raise
         lines = [l for l in o.decode("utf-8").split("\n") if l.strip()]
         if p.returncode != 0 or len(lines) != k:
             raise RuntimeError(f"harness filterset failed rc={p.returncode} got {len(lines)}/{k}: "
